@@ -276,3 +276,39 @@ pub fn wrap_in_object(enc: Enc, hash: Option<(&HashCase, bool)>, ver: Option<&Ve
     }
     spec
 }
+
+/// Cyclic `sh_link` structures between section headers: two or three sections of one type linked in a ring (or one to
+/// itself), and the other sections' links redirected into the ring. Whatever follows links from header to header
+/// (string table of a symbol table, symbol table of a hash or version section, ...) must not follow them forever.
+pub fn link_cycles(spec: &mut ObjSpec, rng: &mut Rng) -> String {
+    let types = [k::SHT_DYNSYM, k::SHT_SYMTAB, k::SHT_STRTAB, k::SHT_GNU_VERNEED, k::SHT_GNU_VERDEF, k::SHT_GNU_VERSYM, k::SHT_HASH, k::SHT_GNU_HASH, k::SHT_DYNAMIC, k::SHT_REL, k::SHT_RELA];
+    let present: Vec<u32> = types.iter().copied().filter(|t| spec.secs.iter().any(|s| s.sh_type == *t)).collect();
+    if present.is_empty() {
+        return "no typed sections".to_string();
+    }
+    let t = present[rng.usize_below(present.len())];
+    let want = 2 + rng.usize_below(2);
+    loop {
+        let members: Vec<usize> = (0..spec.secs.len()).filter(|i| spec.secs[*i].sh_type == t).collect();
+        if members.len() >= want {
+            break;
+        }
+        let mut d = spec.secs[members[0]].clone();
+        d.name.extend_from_slice(b".c");
+        spec.add(d);
+    }
+    let members: Vec<usize> = (0..spec.secs.len()).filter(|i| spec.secs[*i].sh_type == t).take(want).collect();
+    let self_loop = rng.chance(1, 6);
+    for (j, &m) in members.iter().enumerate() {
+        let next = if self_loop { m } else { members[(j + 1) % members.len()] };
+        spec.secs[m].link = (next + 1) as u32;
+    }
+    let mut redirected = 0;
+    for i in 0..spec.secs.len() {
+        if !members.contains(&i) && spec.secs[i].link != 0 && rng.bool() {
+            spec.secs[i].link = (members[rng.usize_below(members.len())] + 1) as u32;
+            redirected += 1;
+        }
+    }
+    format!("{} sections of type {t:#x} linked in a ring{}, {redirected} other links redirected into it", members.len(), if self_loop { " (self links)" } else { "" })
+}
